@@ -132,8 +132,8 @@ def _circuit_prop(pid, keys, text):
 
 _circuit_prop("C05", ["ev:run", "fan", "run", "fb"], "")
 _circuit_prop("C06", ["res", "run", "fb", "fbarg"], "")
-_circuit_prop("C01", ["res", "run", "fbarg", "ev:run"], "")
-_circuit_prop("C08", ["res", "run", "fb"], "")
+_circuit_prop("C01", ["res", "run", "fbarg", "ev:run", "told"], "")
+_circuit_prop("C08", ["res", "run", "fb", "told"], "")
 _circuit_prop("C12", ["rd", "ev"], "")
 _circuit_prop("C07", ["seen", "after", "rel", "fbsame"], "")
 _circuit_prop("C10", ["res", "conc"], "")
@@ -254,7 +254,7 @@ PROPS["C07"]["components"].append(Sched("cfg", 3000, 100000, label="sched-cfg-de
 PROPS["C05"]["components"].append(Sched("cfg", 3000, 100000, label="sched-cfg-kind", only="C05:", pb1=((40, 1500), (400, 40000))))
 PROPS["C05"]["rule"] += " cfg (schedules): one call racing one live reconfiguration (limits, timeout, flags, IgnoreInterrupts, the interrupt classifier) must be reported as the kind the old or the new configuration yields."
 PROPS["C07"]["rule"] += " cfg (schedules): one call racing one Timeout change: the deadline its run function sees is start+old or start+new (or none), never anything else."
-for _pid in ("C04", "C07", "C08", "C11"):
+for _pid in ("C01", "C04", "C07", "C08", "C09", "C11"):
     PROPS[_pid]["components"].append(Sched("cfg2", 1500, 60000, only=_pid + ":", pb1=((40, 1500), (400, 40000))))
     PROPS[_pid]["rule"] += " cfg2 (schedules): two overlapping SetConfigThreadSafe calls with different settings (+ optionally a reader); once both returned, what Config() reports must be what is enforced (override flags, timeout, both limits), observed through IsOpen and a lone probe call."
     if TB_SCHED[0] not in PROPS[_pid]["trusted_base"]:
